@@ -219,9 +219,17 @@ func onPoint(kind int, addr any, site string) {
 		}
 		t.joint = false
 	case vshim.KUnlock, vshim.KRUnlock:
-		// release operations take effect at once (only one thread runs at a time)
+		// The release takes effect at once (only one thread runs at a time). If the mutex is one
+		// that two threads use, the thread then parks at an always-enabled point: what follows a
+		// critical section (often uninstrumented work on an object fetched under the lock) must be
+		// separable from it by the scheduler, otherwise "lock; look up; unlock; use" races are
+		// glued shut.
 		x.apply(t, op)
-		return
+		x.note(op.addr, t.ID, true, site)
+		if x.cfg.GateOnly || (!x.cfg.AllPoints && !relevantSites[site]) {
+			return
+		}
+		op = &pendOp{kind: vshim.KYield, site: site}
 	case vshim.KRead, vshim.KWrite:
 		if x.cfg.GateOnly || (!x.cfg.AllPoints && !relevantSites[site]) {
 			x.apply(t, op)
